@@ -22,11 +22,11 @@ from pbt import c02_ref_itp
 
 PROPERTY = 'C11'
 LEVEL = 'exploration'
-RULE = ('a contiguous fragment (4-24 residues quick / 4-40 thorough, optionally crossing a chain boundary) of one of 11 test structures '
+RULE = ('a contiguous fragment (4-24 residues quick / 4-40 thorough, optionally crossing a chain boundary, or split into two chains with generated identifiers by leaving one residue out) of one of 11 test structures '
         '(with and without hydrogens, with disulfides, two chains) x a presentation change (within-residue atom permutation, '
-        'hydrogen renaming by scheme or unique random names, synthetic alternate-location records, one of 24 exact rotations + grid translation, PYTHONHASHSEED in '
+        'hydrogen renaming by scheme or unique random names, synthetic alternate-location records, one of 24 exact rotations + grid translation up to 20 A, one case in three up to 400 A, PYTHONHASHSEED in '
         '{0,1,4242}) x pipeline options (-ff martini3001/martini22/elnedyn22, -elastic with bounds, -p backbone, -ss, -dssp, -cys, '
-        '-nt, -noscfix); both runs go through the real entry() and the written files are compared; non-trivial = the change moved '
+        '-nt, -noscfix, -merge all / -merge <chains>); both runs go through the real entry() and the written files are compared; non-trivial = the change moved '
         'at least one heavy atom in the file or renamed a hydrogen, and the fragment contains a residue with a symmetric side '
         'chain or a disulfide; distinct by hash of (fragment, transform, options)')
 ASSUMPTIONS = [
@@ -111,6 +111,18 @@ def fragment(case):
     length = min(case['length'], nres)
     start = case['start'] % (nres - length + 1)
     residues = src['residues'][start:start + length]
+    split = case.get('split')
+    if split is not None and length >= 5 and len(set(key[0] for key, _ in residues)) == 1:
+        # two molecules out of one: a residue is left out and the two pieces get chain identifiers of their own
+        cut = 1 + split['at'] % (length - 3)
+        first, second = split['chains']
+        relabelled = []
+        for ridx, (key, lines) in enumerate(residues):
+            if ridx == cut:
+                continue
+            chain = first if ridx < cut else second
+            relabelled.append(((chain,) + tuple(key[1:]), [line[:21] + chain + line[22:] for line in lines]))
+        residues = relabelled
     picks = case.get('altloc') or []
     if picks:
         # give some atoms an alternate location B (conformer A keeps the coordinates): both presentations contain both
@@ -208,6 +220,8 @@ def cli_args(opt):
         args += ['-noscfix']
     if opt['resid_input']:
         args += ['-resid', 'input']
+    if opt.get('merge'):
+        args += ['-merge', opt['merge']]
     return args
 
 
@@ -409,6 +423,12 @@ def run(case):
     nres = len(residues)
     if opt['ss'] not in (None, 'dssp'):
         opt['ss'] = (opt['ss'] * (nres // len(opt['ss']) + 1))[:nres]
+    chains = []
+    for key, _ in residues:
+        if key[0] not in chains:
+            chains.append(key[0])
+    if opt.get('merge') == 'listed':
+        opt['merge'] = ','.join(chains) if len(chains) > 1 and all(c.strip() for c in chains) else None
     args = cli_args(opt)
     base_text, _, _ = render(residues, None)
     var_text, moved, renamed = render(residues, transform)
@@ -468,8 +488,12 @@ def run(case):
         classes.append('elastic')
     if opt['ss'] == 'dssp':
         classes.append('dssp')
-    if len(set(key[0] for key, _ in residues)) > 1:
+    if len(chains) > 1:
         classes.append('two-chains')
+        if opt.get('merge'):
+            classes.append('chains-merged')
+    if max(abs(v) for v in transform['shift']) > 100000:
+        classes.append('far-from-origin')
     if any(line[16] == 'B' for _, lines in residues for line in lines):
         classes.append('alternate-locations')
     if has_ss:
@@ -512,7 +536,9 @@ def strategy(tier):
         'perm_keys': st.lists(st.integers(0, 1000), min_size=5, max_size=23),
         'rename_h': st.sampled_from([None, 'unique', 'scheme']),
         'rot': st.integers(0, 23),
-        'shift': st.lists(st.integers(-20000, 20000), min_size=3, max_size=3),
+        'shift': st.one_of(st.lists(st.integers(-20000, 20000), min_size=3, max_size=3),
+                           st.lists(st.integers(-20000, 20000), min_size=3, max_size=3),
+                           st.lists(st.integers(-400000, 400000), min_size=3, max_size=3)),
         'hashseed': st.sampled_from([0, 1, 4242]),
     })
     options = st.fixed_dictionaries({
@@ -524,10 +550,13 @@ def strategy(tier):
         'ss': st.one_of(st.none(), st.none(), st.just('dssp'), st.text(alphabet='HHHCCEETS', min_size=3, max_size=12)),
         'cys': st.sampled_from(['auto', 'auto', 'none', '0.3']),
         'nt': st.booleans(), 'noscfix': st.booleans(), 'resid_input': st.booleans(),
+        'merge': st.sampled_from([None, None, 'all', 'listed']),
     })
     return st.fixed_dictionaries({
         'source': st.integers(0, len(SOURCES) - 1), 'start': st.integers(0, 400), 'length': st.integers(4, maxlen),
         'transform': transform, 'options': options,
+        'split': st.one_of(st.none(), st.fixed_dictionaries({
+            'at': st.integers(0, 40), 'chains': st.sampled_from([['A', 'B'], ['B', 'A'], ['X', 'a'], ['1', '2'], ['H', 'L']])})),
         'altloc': st.one_of(st.just([]), st.just([]), st.lists(st.tuples(st.integers(0, 40), st.integers(0, 30)).map(list), min_size=1, max_size=3)),
     })
 
